@@ -43,5 +43,6 @@ def obligations(tier):
 
 
 def solver_queries(tier, scratch):
+    from vf import lr_lemmas
     from vf import rx_queries as rq
-    return rq.numeral_queries(scratch, "C17")
+    return rq.numeral_queries(scratch, "C17") + lr_lemmas.run_lemmas("C17", tier, scratch)
